@@ -176,6 +176,12 @@ func keysOf(m map[string]bool) []string {
 }
 
 func (s *c21) Final(w *World) *Violation {
+	if s.peakIn == s.maxIn {
+		w.Probe("c21-incoming-limit-reached")
+	}
+	if s.peakOut == s.maxOut {
+		w.Probe("c21-outgoing-limit-reached")
+	}
 	for i, r := range s.reqs {
 		if !r.Done() {
 			sig := "request-never-finished"
